@@ -13,77 +13,177 @@ MANIFEST = dict(
     level="model_checking",
     engine="tlc-mc+replay",
     technique="TLA+ specs TtxAssembly (reference reception semantics, all magazine interleavings) and TtxFormatL1 (Level 1 row presentation "
-              "from EN 300 706 12.2/15) checked/evaluated by TLC; every generated transmission is sent as real packets through vbi_decode and "
-              "the fetched pages are compared cell by cell with the pages the specification predicts at each termination point",
+              "from EN 300 706 12.2/15: all 32 spacing attributes) checked/evaluated by TLC; every generated transmission is sent as real "
+              "packets through vbi_decode and the fetched pages (cells, FLOF links) are compared with the pages the specification predicts "
+              "at each termination point",
     text="TLC explores every interleaving of headers, rows (any order, omitted, overwritten), FLOF packets and time-filling headers of two "
          "magazines in serial and parallel mode, with erase set/clear, single pages and pages with subpages, and computes for every "
-         "termination point the page that must be stored (rows of this transmission over the previous version unless erased). The "
-         "presentation of every row (attributes, mosaics, hold, double height, English/German sub-set) is computed by TLC from "
-         "TtxFormatL1. The real decoder receives the same transmissions; at every termination point the exact and the wildcard subpage "
-         "fetch must return exactly those cells, page and subpage number, and exactly one page event must have been raised per transmission.",
-    note="Bounded: 2 magazines, 3-5 page numbers, subpages {1,2}, rows {1,2,24}, <= 6 packets per behaviour (sampled 1:24 in the quick tier); "
-         "row contents come from a seeded library of 40 rows. Not covered: box/ESC/double width/double size codes, national sub-sets other "
-         "than English and German, Level 1.5+ enhancement, two consecutive headers with the same page number, FLOF link values (the packet "
-         "is transmitted, the links are not compared).",
+         "termination point the page that must be stored (rows and links of this transmission over the previous version unless erased). The "
+         "presentation of every row - character through the English/German sub-set, colours, flash, conceal, contiguous/separated and "
+         "held mosaics, normal/double height/double width/double size incl. the covered position and the row below, boxing - is computed "
+         "by TLC from TtxFormatL1 for a row library that pairs every one of the 32 spacing attributes with hold mosaics on/off in mosaics "
+         "and alphanumerics mode behind a mosaic character (Set-At shows in the attribute's cell, Set-After in the next; the held character "
+         "is reset by a change of mode or size). The real decoder receives the same transmissions; at every termination point the exact "
+         "and the wildcard subpage fetch must return exactly those cells, page and subpage number and the transmitted FLOF links "
+         "(nav_link), and exactly one page event must have been raised per transmission.",
+    note="Bounded: 2 magazines, 3-5 page numbers, subpages {1,2}, rows {1,2,24}, <= 6 packets per behaviour of the exhaustive cover (every "
+         "20th behaviour replayed; quick: 5 packets, rows {1,24}, every 48th) and 14 packets per random transmission; row contents come from a library of "
+         "128 systematic + 40 seeded rows. Not covered: national sub-sets other than English and German, a second G0 set (ESC without "
+         "X/28), Level 1.5+ enhancement, two consecutive headers with the same page number, double height/size on rows 23/24 or without "
+         "a cell to govern, double width characters in column 39 (EN 300 706 12.2 leaves these open), pages with newsflash/subtitle flags.",
 )
 
-BLANK = [32, 7, 0, 0, 0, 0]
+QUICK_SAMPLE = 48          # quick tier: every 48th behaviour of the bounded cover (196 544, 5 packets) is replayed
+THOROUGH_SAMPLE = 20       # thorough tier: every 20th behaviour of the bounded cover (2 497 312, 6 packets)
+BLANK = [32, 7, 0, 0, 0, 0, 0]
+FIELDS = ["char", "foreground", "background", "flash", "conceal", "size", "boxed"]
 
 
 def canon(cell):
     """a blank cell shows only its background: space, mosaic space (contiguous 0xEE20 / separated 0xEE00) are the same glyph,
-    and foreground, flash and conceal of a blank are invisible"""
+    and foreground, flash and conceal of a blank are invisible (six fields: the projection C03 compares)"""
     u, fg, bg, fl, cn, sz = cell[:6]
     if u in (32, 0xEE20, 0xEE00):
         return [32, 0, bg, 0, 0, sz]
     return [u, fg, bg, fl, cn, sz]
 
 
+def canon7(cell):
+    """canon() plus boxed (0 / 1)"""
+    return canon(cell) + [cell[6] if len(cell) > 6 else 0]
+
+
+# libzvbi's representation of the opacity of a Level 1 page without newsflash / subtitle / inhibit flags (format.h): a cell
+# outside a box is VBI_OPAQUE (3), inside a box VBI_SEMI_TRANSPARENT (2)
+OPACITY_BOXED = {3: 0, 2: 1}
+
+MOSAICS = list(range(0x21, 0x40)) + list(range(0x60, 0x80))       # mosaic characters with at least one element set
+LETTERS = list(range(0x41, 0x5B)) + list(range(0x61, 0x7B))
+NATPOS = [35, 36, 64, 91, 92, 93, 94, 95, 96, 123, 124, 125, 126, 127]
+NEUTRAL = [0x09, 0x19, 0x1B]            # steady, contiguous mosaics, ESC: displayed like every attribute, (almost) no effect
+SIZES = (0x0D, 0x0E, 0x0F)
+
+
+def finish_row(row, rnd, fill_attrs, p_attr=0.2):
+    """random text / mosaics / attributes up to column 37, then normal size and a letter: the transmitter returns to normal
+    size before the end of the row"""
+    while len(row) < 38:
+        r = rnd.random()
+        if r < p_attr:
+            row.append(rnd.choice(fill_attrs))
+        elif r < p_attr + 0.08:
+            row.append(rnd.choice(NATPOS))
+        elif r < p_attr + 0.4:
+            row.append(rnd.choice(MOSAICS))
+        else:
+            row.append(rnd.randrange(0x20, 0x80))
+    return row[:38] + [0x0C, rnd.choice(LETTERS)]
+
+
+def systematic_row(rnd, a, hold, mosaic):
+    """the spacing attribute a paired with hold mosaics on / off, in mosaics / alphanumerics mode behind a mosaic character:
+    a followed by a neutral attribute (is the held character still there?), by a character, by itself; then the same with the
+    other hold state (12.2: Set-At shows in the attribute's own cell, Set-After in the next)"""
+    mc = lambda: 0x10 + rnd.randrange(1, 8)
+    row = [mc(), rnd.choice(MOSAICS), rnd.choice(MOSAICS)]
+    if not mosaic:
+        row += [rnd.randrange(1, 8), rnd.choice(LETTERS)]
+    ch = (lambda: rnd.choice(MOSAICS)) if mosaic else (lambda: rnd.choice(LETTERS))
+    if hold:
+        row.append(0x1E)
+    row += [a, rnd.choice(NEUTRAL), ch(), a, a, rnd.choice(NEUTRAL), ch(), rnd.choice(LETTERS)]
+    row += [0x1F if hold else 0x1E, 0x0C, mc(), rnd.choice(MOSAICS), a, rnd.choice(NEUTRAL), rnd.choice(range(32)), rnd.choice(MOSAICS),
+            a, rnd.choice(MOSAICS), rnd.choice(NEUTRAL)]
+    fill = [x for x in range(32) if x not in SIZES] + ([a] * 4 if a in SIZES else [])
+    return finish_row(row, rnd, fill)
+
+
 def make_rowlib(rnd, n=40):
-    """seeded library of rows (7-bit codes) built from the covered spacing attributes"""
-    attrs = list(range(0, 8)) + [8, 9, 12, 13, 16, 17, 18, 19, 20, 21, 22, 23, 24, 25, 26, 28, 29, 30, 31]
-    natpos = [35, 36, 64, 91, 92, 93, 94, 95, 96, 123, 124, 125, 126, 127]
+    """library of rows (7-bit codes): (1) every spacing attribute 0x00..0x1F x hold mosaics on / off x mosaics / alphanumerics
+    mode behind a mosaic character (128 rows), (2) n seeded random rows over all 32 attributes"""
     lib = []
+    for a in range(32):
+        for hold in (True, False):
+            for mosaic in (True, False):
+                lib.append(systematic_row(rnd, a, hold, mosaic))
     for k in range(n):
-        dh_ok = (k % 4 == 3)
+        tall_ok = (k % 4 == 3)
+        attrs = [x for x in range(32) if tall_ok or x not in (0x0D, 0x0F)]
         row = []
         p_attr = rnd.choice([0.1, 0.25, 0.5])
         while len(row) < 40:
             r = rnd.random()
             if r < p_attr:
-                a = rnd.choice(attrs)
-                if a == 13 and not dh_ok:
-                    a = 12
-                row.append(a)
+                row.append(rnd.choice(attrs))
             elif r < p_attr + 0.1:
-                row.append(rnd.choice(natpos))
+                row.append(rnd.choice(NATPOS))
             else:
                 row.append(rnd.randrange(0x20, 0x80))
-        if not dh_ok:
-            row = [12 if c == 13 else c for c in row]
+        if any(c in (0x0E, 0x0F) for c in row):
+            row[38:40] = [0x0C, rnd.choice(LETTERS)]
         lib.append(row)
     return lib
 
 
-def eval_rowlib(ctx, lib):
+def eval_rowlib(ctx, lib, extra=()):
+    """TLC evaluates TtxFormatL1 over the candidate rows; rows 12.2 leaves open (Eval_TtxFormat: amb) are dropped.
+    -> (lib, tab, raw): rows kept (+ extra rows, e.g. a blank one), canonical seven-field cells / TLC's cells keyed (k, nat), k = 1.."""
+    cand = list(lib) + [list(r) for r in extra]
     d = os.path.join(ctx.scratch, "fmt")
     os.makedirs(d, exist_ok=True)
     for f in ("TtxFormatL1.tla", "Eval_TtxFormat.tla", "Eval_TtxFormat.cfg"):
         shutil.copy(os.path.join(tlc.SPEC, f), d)
-    rows = ",\n  ".join("<<" + ", ".join(str(c) for c in r) + ">>" for r in lib)
+    rows = ",\n  ".join("<<" + ", ".join(str(c) for c in r) + ">>" for r in cand)
     open(os.path.join(d, "RowLib.tla"), "w").write("---- MODULE RowLib ----\nRowLib == <<\n  %s >>\n====\n" % rows)
     r = tlc.run("Eval_TtxFormat", "Eval_TtxFormat", timeout=600, workers=1, collect_tr=True, cwd=d, heap="4g")
     ctx.add_mc(r, "EVAL TtxFormatL1 (row library)")
-    tab = {}
-    for e in r.tr:
-        tab[(e["k"], e["nat"])] = dict(cells=[canon(c) for c in e["cells"]], dh=e["dh"], lower=[canon(c) for c in e["lower"]])
-    if len(tab) != 2 * len(lib):
-        raise tlc.ToolFailure("row library evaluation incomplete: %d of %d" % (len(tab), 2 * len(lib)))
-    return tab
+    ent = {(e["k"], e["nat"]): e for e in r.tr}
+    if len(ent) != 2 * len(cand):
+        raise tlc.ToolFailure("row library evaluation incomplete: %d of %d" % (len(ent), 2 * len(cand)))
+    keep = [k for k in range(1, len(cand) + 1) if not (ent[(k, 0)]["amb"] or ent[(k, 1)]["amb"])]
+    out, tab, raw = [], {}, {}
+    for new, k in enumerate(keep, 1):
+        out.append(cand[k - 1])
+        for nat in (0, 1):
+            e = ent[(k, nat)]
+            tab[(new, nat)] = dict(cells=[canon7(c) for c in e["cells"]], dh=e["dh"], sized=e["sized"], lower=[canon7(c) for c in e["lower"]])
+            raw[(new, nat)] = dict(cells=[list(c) for c in e["cells"]], dh=e["dh"], sized=e["sized"], lower=[list(c) for c in e["lower"]])
+    ctx.notes.append("row library: %d rows evaluated by TLC, %d kept (%d with a double height / size attribute that governs no cell dropped)"
+                     % (len(cand), len(out), len(cand) - len(out)))
+    return out, tab, raw
+
+
+class RowPicker:
+    """content id -> library row: cycles through the library so that every row is transmitted; rows with double height / double
+    size characters (the row below is not displayed) only where the caller allows them"""
+    def __init__(self, rnd, lib, tab):
+        self.rnd = rnd
+        self.flat = [k + 1 for k in range(len(lib)) if not tab[(k + 1, 0)]["dh"] and not tab[(k + 1, 1)]["dh"]]
+        self.tall = [k + 1 for k in range(len(lib)) if (k + 1) not in set(self.flat)]
+        rnd.shuffle(self.flat); rnd.shuffle(self.tall)
+        self.i = self.j = 0
+        self.used = set()
+
+    def pick(self, tall_ok):
+        if tall_ok and self.tall and self.rnd.random() < 0.4:
+            self.j += 1
+            k = self.tall[self.j % len(self.tall)]
+        else:
+            self.i += 1
+            k = self.flat[self.i % len(self.flat)]
+        self.used.add(k)
+        return k
+
+
+# link sets of X/27/0: six links (page number, subcode) per set id; 0x8FF = no link (EN 300 706 9.6.1)
+LINKSETS = {1: [(0x100, 0x3F7F), (0x200, 0x3F7F), (0x300, 0x3F7F), (0x101, 0x3F7F), (0x8FF, 0x3F7F), (0x100, 0x3F7F)],
+            2: [(0x111, 0x0001), (0x222, 0x3F7F), (0x333, 0x0002), (0x444, 0x3F7F), (0x555, 0x3F7F), (0x777, 0x0003)]}
 
 
 def flof_packet(mag, f):
-    links = [(0x100, 0x3F7F), (0x200, 0x3F7F), (0x300, 0x3F7F), (0x101, 0x3F7F), (0x8FF, 0x3F7F), (0x100, 0x3F7F)]
+    """X/27/0: designation 0, six links (EN 300 706 9.6.1: page units / tens, S1, S2 + M1, S3, S4 + M2 M3; the magazine bits are
+    relative to the packet's magazine), link control byte 0xF (row 24 displayed), CRC not transmitted (0)"""
+    links = LINKSETS[f]
     pk = ttx.mrag(mag, 27) + [ttx.ham8(0)]
     for pg, sub in links:
         m = ((pg >> 8) & 7) ^ (mag & 7)
@@ -103,7 +203,7 @@ def expected_grid(v, cmap, tab):
             grid.append(tab[prev_dh_key]["lower"]); prev_dh_key = None
             continue
         if cid == 0:
-            grid.append([canon(BLANK)] * 40)
+            grid.append([canon7(BLANK)] * 40)
             continue
         key = (cmap[cid], v["nat"])
         grid.append(tab[key]["cells"])
@@ -112,15 +212,23 @@ def expected_grid(v, cmap, tab):
     return grid
 
 
-def compile_beh(rnd, beh, lib, tab):
+def nav_of(g):
+    return [tuple(x) for x in g["nav"]]
+
+
+def no_link(pgno):
+    """no page: 0 / -1 (never set) or page number FF (EN 300 706: a link to page FF is no link)"""
+    return pgno <= 0 or (pgno & 0xFF) == 0xFF
+
+
+def compile_beh(rnd, beh, lib, tab, picker, cmap=None):
+    """-> (script, checks, cmap); cmap: content id -> library row (given when a recorded case is replayed)"""
     serial = beh["mode"] == "serial"
     steps = beh["steps"]
-    ndh = [k + 1 for k in range(len(lib)) if not tab[(k + 1, 0)]["dh"] and not tab[(k + 1, 1)]["dh"]]
-    # content id -> library row; double height rows never on rows 23/24 and not above a transmitted row of interest
-    uses24 = {st["act"]["c"] for st in steps if st["act"]["a"] == "Row" and st["act"]["r"] >= 23}
-    cmap = {}
-    for cid in (1, 2, 3):
-        cmap[cid] = rnd.choice(ndh) if (cid in uses24 or rnd.random() < 0.6) else rnd.randrange(1, len(lib) + 1)
+    if cmap is None:
+        # double height / size rows never on rows 23/24
+        uses24 = {st["act"]["c"] for st in steps if st["act"]["a"] == "Row" and st["act"]["r"] >= 23}
+        cmap = {cid: picker.pick(cid not in uses24) for cid in (1, 2, 3)}
     lines, checks = [], []         # checks: (line index of the answer, kind, expectation)
     ctrl0 = ttx.C11_SERIAL if serial else 0
     pkidx = 0
@@ -144,15 +252,40 @@ def compile_beh(rnd, beh, lib, tab):
             grid = expected_grid(v, cmap, tab)
             for sub in (v["sub"], 0x3F7F):
                 brief = sub == 0x3F7F           # the wildcard fetch is compared by page / subpage number only
-                lines.append("F %x %x 1 %d" % (v["pg"], sub, 1 if brief else 0))
+                lines.append("F %x %x 1 %d" % (v["pg"], sub, 1 if brief else 4))
                 checks.append(("page", len(lines) - 1, dict(pg=v["pg"], sub=v["sub"], grid=grid, hdr=hdr[2] if hdr else None, at=pkidx, brief=brief)))
             lines.append("C %x %x" % (v["pg"], v["sub"]))
             checks.append(("cached", len(lines) - 1, None))
+            lines.append("N %x %x" % (v["pg"], v["sub"]))
+            checks.append(("nav", len(lines) - 1, dict(pg=v["pg"], sub=v["sub"], flof=v["flof"], row24=v["rows"][23] != 0, mag=v["pg"] >> 8)))
         if a["a"] == "Header":
             opened[m] = (a["pg"], a["sub"], pkidx)
         elif a["a"] == "Filler":
             opened.pop(m, None)
-    return lines, checks
+    return lines, checks, cmap
+
+
+def compare_nav(e, g, ln):
+    """the FLOF links of the fetched page (vbi_page.nav_link 0..3 = the four coloured links, 5 = the index link) against the link
+    set the spec says the version holds; with a transmitted row 24 only the links row 24 has a coloured text for are set"""
+    if not g.get("ok"):
+        return ("diverge:fetch:not-cached", "%s: page %x/%x must be stored at this point" % (ln, e["pg"], e["sub"]))
+    nav = nav_of(g)
+    for k in (0, 1, 2, 3, 5):
+        pg, sub = nav[k]
+        want = LINKSETS[e["flof"]][k] if e["flof"] else None
+        if want is not None and no_link(want[0]):
+            want = None
+        if k == 5 and want is None:
+            continue                                # without an index link the decoder offers the initial page of 8/30
+        if want is None:
+            if not no_link(pg):
+                return ("diverge:links:unsent", "%s: link %d is %x/%x, the page was transmitted %s" % (ln, k, pg, sub, "without this link" if e["flof"] else "without X/27"))
+        elif (pg, sub) != want:
+            if e["row24"] and k < 4 and no_link(pg):
+                continue
+            return ("diverge:links:wrong", "%s: link %d is %x/%x, transmitted (link set %d): %x/%x" % (ln, k, pg, sub, e["flof"], want[0], want[1]))
+    return None
 
 
 def compare(lines, checks, got):
@@ -171,9 +304,16 @@ def compare(lines, checks, got):
         elif kind == "cached":
             if not g["cached"]:
                 return ("diverge:is_cached", "vbi_is_cached is false for a page the spec says is stored (%s)" % lines[i])
+        elif kind == "nav":
+            pages.append((e, g, lines[i], True))
         else:
-            pages.append((e, g, lines[i]))
-    for e, g, ln in pages:
+            pages.append((e, g, lines[i], False))
+    for e, g, ln, nav in pages:
+        if nav:
+            bad = compare_nav(e, g, ln)
+            if bad:
+                return bad
+            continue
         if not g["ok"]:
             return ("diverge:fetch:not-cached", "%s: page %x/%x must be stored at this point" % (ln, e["pg"], e["sub"]))
         if g["pgno"] != e["pg"] or g["subno"] != e["sub"]:
@@ -182,12 +322,11 @@ def compare(lines, checks, got):
             continue
         for r in range(1, 25):
             er, gr = e["grid"][r - 1], g["rows"][r]
-            if er == gr[:40]:
-                continue
             for c in range(40):
-                if er[c] != gr[c]:
-                    what = ["char", "foreground", "background", "flash", "conceal", "size"][next(k for k in range(6) if er[c][k] != gr[c][k])]
-                    return ("diverge:fetch:%s" % what, "%s row %d column %d: spec %s, fetched %s" % (ln, r, c, list(er[c]), gr[c]))
+                gc = gr[c][:6] + [OPACITY_BOXED.get(gr[c][6], 10 + gr[c][6])]
+                if er[c] != gc:
+                    what = FIELDS[next(k for k in range(7) if er[c][k] != gc[k])]
+                    return ("diverge:fetch:%s" % what, "%s row %d column %d: spec %s, fetched %s" % (ln, r, c, list(er[c]), gc))
         n = sum(1 for (k, pg, sub) in events if pg == e["pg"] and sub == e["sub"] and (e["hdr"] or 0) < k <= e["at"])
         if n != 1:
             return ("diverge:events:%d" % n, "%s: %d page events for %x/%x between its header (packet %s) and its termination (packet %d); all events: %s"
@@ -195,22 +334,35 @@ def compare(lines, checks, got):
     return None
 
 
-def run_set(ctx, drv, behs, lib, tab, label):
+def run_set(ctx, drv, behs, lib, tab, label, picker=None, cmaps=None, batch=4000):
+    """replay in batches: the answers of a batch (every cell of every fetched page) are dropped before the next one runs"""
     rnd = random.Random(ctx.seed * 31 + 5)
-    comp = [compile_beh(rnd, b, lib, tab) for b in behs]
+    picker = picker or RowPicker(rnd, lib, tab)
+    for b0 in range(0, len(behs), batch):
+        run_batch(ctx, drv, behs[b0:b0 + batch], lib, tab, rnd, picker, cmaps[b0:b0 + batch] if cmaps else None)
+    if behs:
+        m = len(behs) // 2
+        ctx.sample(dict(source=label, mode=behs[m]["mode"], actions=[st["act"] for st in behs[m]["steps"]],
+                        terminated=[[dict(pg=v["pg"], sub=v["sub"], rows=[c for c in v["rows"] if c]) for v in st["term"]] for st in behs[m]["steps"]]))
+    return picker
+
+
+def run_batch(ctx, drv, behs, lib, tab, rnd, picker, cmaps):
+    comp = [compile_beh(rnd, b, lib, tab, picker, cmaps[i] if cmaps else None) for i, b in enumerate(behs)]
     chunks = [list(range(k, len(behs), 16)) for k in range(16)]
 
     def job(idx):
         return (idx, core.run_seq_driver([drv], [comp[i][0] for i in idx], env=build.san_env(), timeout=1200)) if idx else (idx, [])
-    for idx, res in core.pmap(job, chunks):
+    for idx, res in core.pmap(job, chunks, workers=8):
         for j, i in enumerate(idx):
             r = res[j]
             if r.get("skipped"):
                 continue
-            lines, checks = comp[i]
+            lines, checks, cmap = comp[i]
             nterm = sum(1 for c in checks if c[0] == "page")
             ctx.count_case(lines, nontrivial=nterm > 0)
-            rp = dict(script=lines, beh=behs[i], seed=ctx.seed)
+            rp = dict(script=lines, beh=behs[i], seed=ctx.seed, cmap={str(k): v for k, v in cmap.items()},
+                      rows={str(v): lib[v - 1] for v in sorted(set(cmap.values()))})
             if r["stderr"] and r["crashed"]:
                 core.report_sanitizers(ctx, r["stderr"], replay=rp, in_scope=False)
             bad = compare(lines, checks, r["lines"])
@@ -218,41 +370,49 @@ def run_set(ctx, drv, behs, lib, tab, label):
                 ctx.validated()
             else:
                 ctx.violate("replay", bad[0], bad[1] + "\nactions: %s" % [st["act"] for st in behs[i]["steps"]], rp)
-    if behs:
-        m = len(behs) // 2
-        ctx.sample(dict(source=label, mode=behs[m]["mode"], actions=[st["act"] for st in behs[m]["steps"]],
-                        terminated=[[dict(pg=v["pg"], sub=v["sub"], rows=[c for c in v["rows"] if c]) for v in st["term"]] for st in behs[m]["steps"]]))
 
 
 def setup(ctx):
-    lib = make_rowlib(random.Random(ctx.seed), 40)
-    tab = eval_rowlib(ctx, lib)
+    lib, tab, raw = eval_rowlib(ctx, make_rowlib(random.Random(ctx.seed), 40))
     return lib, tab
 
 
 def run(ctx):
     quick = ctx.tier == "quick"
-    ctx.cov["rule"] = ("cases = transmissions (one per distinct terminal state of the bounded TtxAssembly model, sampled in the quick tier) sent as real "
-                       "packets; distinct by packet bytes; non-trivial = at least one page is terminated and compared cell by cell")
-    ctx.assumptions += ["consistent header text (no channel switch inferred)", "two consecutive headers of a magazine never carry the same page number"]
+    ctx.cov["rule"] = ("cases = transmissions (one per distinct terminal state of the bounded TtxAssembly model, sampled in the quick tier, and random "
+                       "long transmissions) sent as real packets, rows from a library that pairs every spacing attribute with hold mosaics on / off; "
+                       "distinct by packet bytes; non-trivial = at least one page is terminated and compared cell by cell")
+    ctx.assumptions += ["consistent header text (no channel switch inferred)", "two consecutive headers of a magazine never carry the same page number",
+                        "double height / double size are not transmitted on rows 23 and 24, the size returns to normal before column 39, and a "
+                        "double height / double size attribute governs at least one cell (EN 300 706 12.2 leaves the other cases open)"]
     drv = build.build_driver("drv_ttx")
-    lib, tab = setup(ctx)
-    r = tlc.run("MC_TtxAssembly", "MC_TtxAssembly_q" if quick else "MC_TtxAssembly_t", timeout=2400, coverage=not quick, heap="16g")
+    n_sim = 1500 if quick else 20000
+
+    def job(k):
+        if k == "lib":
+            return setup(ctx)
+        if k == "mc":
+            return tlc.run("MC_TtxAssembly", "MC_TtxAssembly_q" if quick else "MC_TtxAssembly_t", timeout=2400, coverage=not quick, heap="8g", workers=3)
+        if k == "gen":
+            return tlc.run("Gen_TtxAssembly", "Gen_TtxAssembly_q" if quick else "Gen_TtxAssembly_t", timeout=2400, collect_tr=True, heap="8g", workers=3,
+                           sample_tr=(QUICK_SAMPLE, ctx.seed) if quick else (THOROUGH_SAMPLE, ctx.seed))
+        # long random behaviours of the same model (14 packets): retransmissions of stored pages, early termination by the
+        # other magazine in serial mode, several versions of a page with different FLOF links - histories the bounded cover is too short for
+        return tlc.run("Gen_TtxAssembly", "Gen_TtxAssembly_sim", timeout=1200, collect_tr=True, heap="4g", simulate=max(20, n_sim // 20), depth=16,
+                       seed=ctx.seed, workers=2, max_tr=n_sim)      # TLC prints every successor of the last but one state of a walk: about 20
+                                                                    # transmissions per walk that differ in the last packet; any n_sim will do
+    (lib, tab), r, g, s = core.pmap(job, ["lib", "mc", "gen", "sim"], workers=4)
     ctx.add_mc(r, "MC TtxAssembly")
     if r.violation:
         ctx.violate("mc", "mc:%s:%s" % (r.violation["kind"], r.violation["name"]), r.violation["text"][:3000])
-    g = tlc.run("Gen_TtxAssembly", "Gen_TtxAssembly_q" if quick else "Gen_TtxAssembly_t", timeout=2400, collect_tr=True, heap="16g",
-                sample_tr=(24, ctx.seed) if quick else (6, ctx.seed))
     ctx.add_mc(g, "GEN TtxAssembly")
-    run_set(ctx, drv, g.tr, lib, tab, "Gen_TtxAssembly")
-    # long random behaviours of the same model (14 packets): retransmissions of stored pages, early termination by the
-    # other magazine in serial mode, several versions of a page - histories the bounded cover is too short for
-    n_sim = 1000 if quick else 20000
-    s = tlc.run("Gen_TtxAssembly", "Gen_TtxAssembly_sim", timeout=1200, collect_tr=True, heap="8g", simulate=max(20, n_sim // 100), depth=16,
-                seed=ctx.seed, workers=8, max_tr=n_sim)      # independent random behaviours: any n_sim of them will do
+    picker = run_set(ctx, drv, g.tr, lib, tab, "Gen_TtxAssembly")
     ctx.add_mc(s, "SIM TtxAssembly (depth 14)")
-    run_set(ctx, drv, s.tr, lib, tab, "Sim_TtxAssembly")
+    run_set(ctx, drv, s.tr, lib, tab, "Sim_TtxAssembly", picker=picker)
     ctx.notes.append("simulated behaviours replayed: %d" % len(s.tr))
+    ctx.notes.append("library rows assigned to content ids: %d of %d" % (len(picker.used), len(lib)))
+    if len(picker.used) < len(lib):
+        raise tlc.ToolFailure("only %d of the %d library rows were transmitted: the replayed sample is too small" % (len(picker.used), len(lib)))
     ctx.cov["exhaustive"] = False
     ctx.notes.append("behaviours printed by TLC: %d, replayed: %d" % (g.n_tr, len(g.tr)))
 
@@ -262,9 +422,7 @@ def replay(ctx, rp):
     r = rp["replay"]
     ctx.seed = r.get("seed", ctx.seed)
     lib, tab = setup(ctx)
-    # recompile with the same seed-independent script: the script itself is stored
-    res = core.run_seq_driver([drv], [r["script"]], env=build.san_env())[0]
-    # expectations need the behaviour: recompile deterministically is not possible (seeded mapping), so compare by re-running the set
-    rnd = random.Random(0)
-    print("replayed %d commands, %d answers" % (len(r["script"]), len(res["lines"])))
-    run_set(ctx, drv, [r["beh"]], lib, tab, "replay")
+    cmap = {int(k): v for k, v in r["cmap"].items()} if r.get("cmap") else None
+    if cmap and any(lib[v - 1] != r["rows"][str(v)] for v in cmap.values()):
+        raise tlc.ToolFailure("the row library of this tree differs from the recorded one")
+    run_set(ctx, drv, [r["beh"]], lib, tab, "replay", cmaps=[cmap] if cmap else None)
